@@ -131,6 +131,7 @@ def run(ctx):
             d = e.data()
             f = want[e.label()]
             ok = any(x.tag == 'field' and x[1] == f for x in walk(d)) and not (set(ctx.adapters(d)) - {'chunks', 'chunks_mut'}) and e.must
+            ok = ok and not wire.overwritten(d)          # .. the response itself, not a copy that was wiped or altered first
             if f == 'd1':
                 ok = ok and any(x.tag == 'elem' and x[1].tag == 'field' and x[1][1] == 'd1' for x in walk(d))
             got[f] = ok
